@@ -9,6 +9,8 @@ namespace c18
     if(cfg.space == "d0") { run_case<QuadMesh, TagD0>(op, cfg, c, o); return true; }
     if(cfg.space == "d1") { run_case<QuadMesh, TagD1>(op, cfg, c, o); return true; }
     if(cfg.space == "b2") { run_case<QuadMesh, TagB2>(op, cfg, c, o); return true; }
+    if(cfg.space == "l3") { run_case<QuadMesh, TagL3>(op, cfg, c, o); return true; }
+    if(cfg.space == "cr") { run_case<QuadMesh, TagCR>(op, cfg, c, o); return true; }
     return false;
   }
 }
